@@ -62,6 +62,7 @@ type Buffer struct {
 	checkStartOffset int64
 	uuid             string
 	committed        bool
+	data             []byte // the content that was verified by Commit
 	desc             ociregistry.Descriptor
 	commitErr        error
 }
@@ -112,7 +113,7 @@ func (b *Buffer) GetBlob() (ociregistry.Descriptor, []byte, error) {
 	if b.commitErr != nil {
 		return ociregistry.Descriptor{}, nil, b.commitErr
 	}
-	return b.desc, b.buf, nil
+	return b.desc, b.data, nil
 }
 
 // Write implements io.Writer by writing some data to the blob.
@@ -160,11 +161,9 @@ func (b *Buffer) Commit(dig ociregistry.Digest) (_ ociregistry.Descriptor, err e
 		b.commitErr = err
 		return ociregistry.Descriptor{}, err
 	}
-	return ociregistry.Descriptor{
-		MediaType: "application/octet-stream",
-		Size:      int64(len(b.buf)),
-		Digest:    dig,
-	}, nil
+	b.mu.Lock()
+	defer b.mu.Unlock()
+	return b.desc, nil
 }
 
 func (b *Buffer) checkCommit(dig ociregistry.Digest) (err error) {
@@ -186,6 +185,10 @@ func (b *Buffer) checkCommit(dig ociregistry.Digest) (err error) {
 		Digest:    dig,
 		Size:      int64(len(b.buf)),
 	}
+	// Remember exactly the content that has been verified: a concurrent
+	// Write must not change what is stored under the digest.
+	// Limiting the capacity means that any such write cannot alias it.
+	b.data = b.buf[:len(b.buf):len(b.buf)]
 	b.committed = true
 	return nil
 }
